@@ -49,7 +49,9 @@ ENVG = Rec("Environment", _module="liquid2.environment", globals=DictOf("str", "
 for _name in ("_check_cache", "_check_cache_async"):
     contract(
         f"liquid2.builtin.loaders.mixins:CachingLoaderMixin.{_name}",
-        props=["C14", "C09"],   # C09: what a cached template renders must not depend on who loaded it before (hit => globals rebound)
+        # C09: what a cached template renders must not depend on who loaded it before (hit => globals rebound)
+        # C10: the template-globals layer of a render is the globals of *this* load
+        props=["C14", "C09", "C10"],
         params={"self": MIXIN, "env": ENVG, "cache_key": Str, "globals": Opt(DictOf("str", "any")),
                 "load_func": Opaque(_load_func, "load_func")},
         obj_fields={"global_data": "any"},
